@@ -91,10 +91,10 @@ func clip(s string) string {
 }
 
 func run(t *rapid.T, prop string) {
-	b := fam.Bounds{MaxRows: 16, MaxCols: 4, MaxMembers: 24, HugeOdds: 4000}
+	b := fam.Bounds{MaxRows: 16, MaxCols: 4, MaxMembers: 24, HugeOdds: 800}
 	maxOps, maxBuild := 4, 5
 	if core.Thorough() {
-		b = fam.Bounds{MaxRows: 40, MaxCols: 5, MaxMembers: 40, HugeOdds: 2000}
+		b = fam.Bounds{MaxRows: 40, MaxCols: 5, MaxMembers: 40, HugeOdds: 500}
 		maxOps, maxBuild = 7, 8
 	}
 	w := fam.NewWorld(t, b)
@@ -160,15 +160,24 @@ func run(t *rapid.T, prop string) {
 		minClients, maxClients = 2, 4
 	}
 	nclients := rapid.IntRange(minClients, maxClients).Draw(t, "nclients")
-	for c := 0; c < nclients; c++ {
-		n := rapid.IntRange(1, maxOps).Draw(t, "nops")
-		var prog []fam.OpDesc
-		for i := 0; i < n; i++ {
-			d := fam.DrawSibling(t, prev)
-			prev = &d
-			prog = append(prog, d)
+	stormOdds := 5
+	if w.Huge {
+		stormOdds = 1
+	}
+	if nclients > 1 && rapid.IntRange(0, stormOdds).Draw(t, "storm") == 0 {
+		tr.Programs = fam.DrawStorm(t, nclients)
+		core.Probe("storm-programs")
+	} else {
+		for c := 0; c < nclients; c++ {
+			n := rapid.IntRange(1, maxOps).Draw(t, "nops")
+			var prog []fam.OpDesc
+			for i := 0; i < n; i++ {
+				d := fam.DrawSibling(t, prev)
+				prev = &d
+				prog = append(prog, d)
+			}
+			tr.Programs = append(tr.Programs, prog)
 		}
-		tr.Programs = append(tr.Programs, prog)
 	}
 
 	// dry run (sequential, on a throw-away copy of the member list) to learn
